@@ -116,10 +116,10 @@ impl C13 {
                             list.extend(a.iter().cloned().chain(b.iter().cloned()))
                         }
                         _ => {
-                            list.extend(std::iter::empty());
+                            list.extend(std::iter::empty::<RawCommand>());
                             acc.inc("extended_from_an_empty_iterator");
                             list.extend(part.into_iter().filter(|_| true));
-                            list.extend(Vec::new());
+                            list.extend(Vec::<RawCommand>::new());
                         }
                     }
                     k += m;
@@ -128,7 +128,7 @@ impl C13 {
         }
         if n == 1 && r.chance(1, 2) {
             // a list of one command stays a list of one command when nothing is added to it
-            list.extend(std::iter::empty());
+            list.extend(std::iter::empty::<RawCommand>());
             acc.inc("extended_from_an_empty_iterator");
         }
         acc.inc("evaluations");
